@@ -11,6 +11,7 @@ import (
 
 	"pgregory.net/rapid"
 
+	"verif/harness/spec"
 	"verif/harness/vh"
 )
 
@@ -89,6 +90,33 @@ func TestC18(t *testing.T) {
 		allowed := map[string]bool{}
 		for _, pk := range c.Conv.Prog.Pkgs {
 			allowed[c.Conv.Prog.ImportPath(pk.Key)] = true
+		}
+		// packages outside the program (standard library) that own a type of the program
+		var walk func(t *spec.T, depth int)
+		walk = func(t *spec.T, depth int) {
+			if t == nil || depth > 12 {
+				return
+			}
+			if t.K == spec.KNamed && t.Pkg != "" && c.Conv.Prog.Pkg(t.Pkg) == nil {
+				allowed[c.Conv.Prog.ImportPath(t.Pkg)] = true
+			}
+			walk(t.Elem, depth+1)
+			walk(t.Key, depth+1)
+			for _, a := range t.Args {
+				walk(a, depth+1)
+			}
+			for _, f := range t.Fields {
+				walk(f.T, depth+1)
+			}
+		}
+		for _, pk := range c.Conv.Prog.Pkgs {
+			for _, d := range pk.Types {
+				walk(d.U, 0)
+			}
+		}
+		for _, m := range c.Conv.Methods {
+			walk(m.Source, 0)
+			walk(m.Target, 0)
 		}
 		if c.Conv.Settings.Wrap == "using" {
 			allowed[c.Conv.Settings.WrapPkg] = true
